@@ -178,6 +178,10 @@ func (r *rwRT) interp(cfg rwConfig) *Interp {
 		}
 		return !bound[fn.Name()]
 	}
+	// every *block is built by mkBlock, which always gives it an AST block
+	in.NNField = func(t types.Type, field string) bool {
+		return field == "block" && strings.HasSuffix(t.String(), "rewriter.block")
+	}
 	in.OpaqueArgs = func(fn *ssa.Function) bool { return inRw(fn) && bound[fn.Name()] }
 	// only the rewriter's own bookkeeping objects (blocks) are mutated by the recursion;
 	// go/ast nodes handed to it keep their structure
